@@ -6,7 +6,11 @@ PROPERTY = 'C02'
 
 
 def contracts(tier):
-    return strategies.hier_contracts(tier) + strategies.worker_contracts(tier)
+    from . import c14
+    # the final pass holds every enabled mutator (shared with C14)
+    passes = [c for c in c14.contracts(tier) if c.name == 'C14/get_passes']
+    return strategies.hier_contracts(tier) + \
+        strategies.worker_contracts(tier) + passes
 
 
 def native_checks(tier):
